@@ -224,10 +224,13 @@ def transparency_case(seed, idx, tier):
             for i, part in enumerate(parts):
                 lvl = rng.randrange(10)
                 if rng.random() < 0.6:
-                    # member boundary on a multiple of the tool's 512-byte input buffer
+                    # member boundary on, or within a few bytes of, a multiple of the tool's 512-byte input
+                    # buffer (so that 0, 1, 2, 3 bytes of the next member's header are left in the buffer)
                     sofar = sum(len(m) for m in members)
                     m0 = gz_member(part, lvl, extra_len=0)
-                    m = gz_member(part, lvl, extra_len=(-(sofar + len(m0))) % 512)
+                    want = rng.choice([0, 0, 0, 511, 511, 510, 509, 1, 2, 3])
+                    m = gz_member(part, lvl, extra_len=(want - (sofar + len(m0))) % 512)
+                    res.seen('member_boundary_mod_512', want)
                 else:
                     m = gz_member(part, lvl)
                 members.append(m)
